@@ -123,6 +123,9 @@ type c10Case struct {
 
 func (c *c10Case) scriptString() string {
 	s := ""
+	if len(c.Before) > 0 {
+		s = fmt.Sprintf("after %d earlier sends on the same cached region: ", len(c.Before))
+	}
 	for i, st := range c.Script {
 		if i > 0 {
 			s += ","
@@ -759,11 +762,18 @@ func (w *c10World) close() { w.cache.Close() }
 // locate does what a caller does before a send: look the region up (reloads it from PD when a previous send
 // invalidated it, otherwise the cached region with its leader/proxy bookkeeping is reused).
 func (w *c10World) locate() *Region {
+	region, _ := w.locate2()
+	return region
+}
+
+// locate2 also returns the region version the caller would send with; the cached region can be missing for it (PD
+// answered with an older epoch than a region an EpochNotMatch had put into the cache): the send is made all the same.
+func (w *c10World) locate2() (*Region, RegionVerID) {
 	loc, err := w.cache.LocateKey(retry.NewNoopBackoff(context.Background()), []byte("key"))
 	if err != nil {
 		panic(fmt.Sprintf("c10: cannot load the region: %v", err))
 	}
-	return w.cache.GetCachedRegionWithRLock(loc.Region)
+	return w.cache.GetCachedRegionWithRLock(loc.Region), loc.Region
 }
 
 // setLiveness plays the part of the store health-check loop (disabled by failpoint in this harness): the listed
@@ -782,6 +792,9 @@ func (w *c10World) setLiveness(region *Region, unreach []int) {
 		}
 	}
 	w.mu.Unlock()
+	if region == nil {
+		return
+	}
 	for _, st := range region.getStore().stores {
 		l := reachable
 		if down[st.storeID] {
@@ -802,7 +815,7 @@ func c10Send(t *c10Topo, c *c10Case) *c10Outcome {
 func (w *c10World) send(c *c10Case) (out *c10Outcome) {
 	t := w.t
 	out = &c10Outcome{}
-	region := w.locate()
+	region, regionID := w.locate2()
 	if w.sends == 0 || !c.KeepLive {
 		w.setLiveness(region, c.Unreach)
 	}
@@ -828,9 +841,11 @@ func (w *c10World) send(c *c10Case) (out *c10Outcome) {
 	}
 	defer func() { randIntn = rand.Intn }()
 
-	out.n = len(region.getStore().accessIndex[tiKVOnly])
-	out.proxyBefore = int(region.getStore().proxyTiKVIdx)
-	regionID := region.VerID()
+	out.n, out.proxyBefore = t.n, -1
+	if region != nil {
+		out.n = len(region.getStore().accessIndex[tiKVOnly])
+		out.proxyBefore = int(region.getStore().proxyTiKVIdx)
+	}
 
 	val := &c10Validator{reject: map[uint64]bool{}}
 	if c.RejectTS {
